@@ -578,7 +578,8 @@ func runMicro(r *mon.Report, tier string, idx, ord int, rng *rand.Rand) {
 		}
 		r.Sig("micro|seq=%v|g=%d|pools=%d|limits=%s", sequential, nG, npools, strings.Join(lims, "/"))
 	}
-	if r.WantSample() && ord%11 == 4 {
+	if wantSample(r, "micro") && !sequential {
+		sampled["micro"] = true
 		r.Sample(map[string]any{"case": idx, "kind": "micro", "sequential": sequential, "goroutines": nG, "limits": truth.limit, "history": m.hist, "porcupine": fmt.Sprint(res)})
 	}
 }
